@@ -7,6 +7,7 @@ import sys, json, collections
 from logparse import parse, OP, OPS, METH
 import hmodel
 from hmodel import Model, KIND_NAMES, SCHEDULE
+from plans import PlanTracker, SUCC, FAIL
 
 LIFE = (5, 6, 15)
 ENTER, REENTER, EXIT = 5, 6, 15
@@ -23,6 +24,7 @@ class Checker:
         self.deviations = deviations
         self.bottomup = bool(shape['cfg'].get('bottomup')); self.pconsume = knobs.get('pConsume', 0); self.inj = set(shape.get('inj', []))
         self.inst = {}
+        self.taskcap = knobs.get('taskcap', 0); self.plans_on = bool(knobs.get('plans', 0))
         self.auth_notes = set(); self.auth_single_round = True; self.ylist = []; self.vflag = None; self.bytes = None
     # ------------------------------------------------------------------
     def v(self, prop, key, op, detail=None):
@@ -38,7 +40,7 @@ class Checker:
     def state(self, inst):
         st = self.inst.get(inst)
         if st is None:
-            st = self.inst[inst] = {'model': Model(self.shape, self.seed, self.knobs, self.deviations, self.limit), 'entered': set(), 'prev_op': None, 'constructed': False}
+            st = self.inst[inst] = {'model': Model(self.shape, self.seed, self.knobs, self.deviations, self.limit), 'entered': set(), 'prev_op': None, 'constructed': False, 'plan': PlanTracker(self.shape, self.taskcap)}
         return st
 
     # ------------------------------------------------------------------ C01 (independent of the in-process check)
@@ -80,12 +82,22 @@ class Checker:
             self.step(op)
     # ------------------------------------------------------------------
     def split(self, op):
-        pre = []; guards = []; cbs = []; enters = []; plines = []; llines = []; self.cj = []; self.klines = []; self.ylist = []; self.vflag = None; self.bytes = None
+        pre = []; guards = []; cbs = []; enters = []; plines = []; llines = []; self.pl = []; self.dumps = {}; self.cdumps = {}; lastq = None; self.cj = []; self.klines = []; self.ylist = []; self.vflag = None; self.bytes = None
         for t, a in op.lines:
             if t == 'c': cbs.append((a[0], a[1])); self.cj.append(('c', a[0], a[1]))
             elif t == 'j': self.cj.append(('j', a[0], a[1]))
             elif t == 'k': self.klines.append((a[0], a[1]))
+            elif t in ('A', 'X', 'K', 's', 'n', 'w'):
+                phase = 1 if (guards or any(me in LIFE for me, _ in cbs)) else 0
+                self.pl.append((t, a, cbs[-1] if cbs else None, phase))
+            elif t == 'J' or t == 'C':
+                v = a[2:]; (self.dumps if t == 'J' else self.cdumps)[a[0]] = (a[1], [tuple(v[i:i + 4]) for i in range(0, len(v), 4)])
+            elif t == 't':
+                if lastq is not None and (lastq[0], lastq[1], lastq[3]) == (a[0], a[1], a[2]): lastq = None
+                elif not guards: pre.append(('T', a[0], a[1], a[2])); self.pl.append(('t', a, None, 0))
             elif t == 'q':
+                lastq = a
+                if cbs and not guards and a[3] >= 0: self.pl.append(('q', a, cbs[-1], 0))
                 req = (a[0], a[1], a[2], a[3])
                 if guards: guards[-1]['issue'].append(req)
                 else: pre.append(req)
@@ -139,6 +151,8 @@ class Checker:
         m.set_step(op.step)
         kind = OPS[op.op]
         processed = False; rounds = []; queued_before = 0
+        if self.plans_on: pre = self.plan_step(op, st, kind, pre, cbs, prev_op)
+        else: pre = [q for q in pre if q[0] != 'T']
         before = (prev_op.act, prev_op.res) if prev_op is not None else None
         if kind == 'CONSTRUCT':
             if not self.manual: rounds = m.initial_enter(guards); processed = True
@@ -153,12 +167,13 @@ class Checker:
             m.reset()
         elif kind == 'EXIT':
             m.final_exit()
-        elif kind == 'QUERY':
+        elif kind in ('QUERY', 'PLANEDIT', 'EXTSTATUS'):
             pass
         elif kind in ('REPLAY', 'REPLAY_ENTER', 'SAVE', 'LOAD'):
             return self.step_special(op, st, kind, guards, cbs, before)
         else:
             self.v('C00', 'harness|unknown-op-' + kind, op); return
+        if self.plans_on: self.plan_after(op, st, kind, m, cbs, prev_op)
         exp_act, exp_res, exp_sub = m.snapshot()
         if op.inst == 0:
             allq = pre + [q for g in guards for q in g['issue']]
@@ -271,6 +286,7 @@ class Checker:
                     if not gone <= ex: self.v('C08', 'load|exit-missing-for-state-that-stopped-being-active', op, sorted(gone - ex)[:6])
                     if not come <= en: self.v('C08', 'load|enter-missing-for-state-that-became-active', op, sorted(come - en)[:6])
                     self.nontrivial['C08'].add((before, src[1], src[2]))
+        if self.plans_on and kind == 'LOAD': st['plan'].reset_all()
         if kind != 'SAVE':
             m.resync(op.act, op.res); m.prev = []
             if kind == 'LOAD': m.queue = []
@@ -301,6 +317,85 @@ class Checker:
         for nkey in ('override-higher', 'remain-only-round', 'leftover', 'queue-full-rejected', 'random-walk-fell-off', 'enter-without-want', 'reenter-without-want', 'bad-prong', 'guards-missing', 'guards-unconsumed'):
             if nkey in notes: tag.append(nkey)
         return ','.join(ks) + ('|' + ','.join(tag) if tag else '')
+
+    # ------------------------------------------------------------------ C06 / C07
+    def plan_step(self, op, st, kind, pre, cbs, prev_op):
+        pt = st['plan']; self.plan_unjudged = False
+        def viol(prop, key, detail): self.v(prop, key, op, detail)
+        # edits issued before the plans are evaluated
+        for t, a, ctx, phase in self.pl:
+            if phase == 0 and t in ('A', 'X', 'K'): self.stats['C07.' + pt.edit(t, a, viol)] += 1
+            if t == 's' and a[2] == -1: (pt.marks_f if a[0] else pt.marks_s).add(a[1])
+        executed = []
+        if kind in ('UPDATE', 'REACT', 'REACT2') and prev_op is not None and prev_op.act and prev_op.act[0] == '1':
+            calls = collections.defaultdict(list); outer = set()
+            for t, a, ctx, phase in self.pl:
+                if t == 's' and a[2] != -1: calls[(a[1], a[2])].append(FAIL if a[0] else SUCC)
+                elif t == 'q' and a[0] != SCHEDULE and ctx is not None and ctx[0] in (7, 8, 9, 10, 11, 13):
+                    r = pt.region_of_state(a[3])
+                    if not pt.in_region(r, a[1]): outer.add((a[3], ctx[0]))
+            cb = [(a[0], a[1], a[2]) for t, a, ctx, phase in self.pl if t == 'n']
+            phases = (7, 8, 9) if kind == 'UPDATE' else (10, 11, 13)
+            has_status = bool(calls) or bool(pt.marks_s) or bool(pt.marks_f)
+            executed, notes = pt.evaluate(prev_op.sub, phases, calls, outer, cb)
+            obs_t = [(a[0], a[1], a[2]) for t, a, ctx, phase in self.pl if t == 't']
+            obs_w = [(a[0], 'PF' if a[1] else 'PS') for t, a, ctx, phase in self.pl if t == 'w']
+            obs_n = [(a[1], 'PF' if a[0] else 'PS') for t, a, ctx, phase in self.pl if t == 'n']
+            self.stats['C06.steps'] += 1
+            if has_status: self.stats['C06.steps-with-status'] += 1
+            judged = not (kind != 'UPDATE' and self.bottomup and has_status)
+            if not judged: self.stats['C06.unadjudicated(bottom-up react)'] += 1; self.plan_unjudged = True; pt.uncertain = True
+            if judged:
+                exp_t = [(t[1], pt.regions[r]) for r, t in executed]
+                if [(d, o) for k, d, o in obs_t] != exp_t:
+                    od = [(d, o) for k, d, o in obs_t]
+                    what = 'order' if sorted(od) == sorted(exp_t) else ('eligible-task-not-executed' if len(od) < len(exp_t) else 'task-executed-that-should-not-be')
+                    self.v('C06', 'execution|' + what, op, {'expected': [(KIND_NAMES[t[2]], t[0], t[1], t[3]) for r, t in executed][:6], 'observed': obs_t[:6]})
+                else:
+                    for (k, d, o), (r, t) in zip(obs_t, executed):
+                        if k != t[2]: self.v('C06', 'execution|task-issued-as-%s-instead-of-its-kind' % KIND_NAMES[k], op, {'task': t, 'kind': KIND_NAMES[t[2]]}); break
+                if obs_w != notes:
+                    miss = [x for x in notes if x not in obs_w]; extra = [x for x in obs_w if x not in notes]
+                    what = ('planFailed-missing' if any(x[1] == 'PF' for x in miss) else 'planSucceeded-missing') if miss else ('unexpected-plan-notification' if extra else 'notification-order')
+                    self.v('C06', 'status|' + what, op, {'expected': notes[:6], 'observed': obs_w[:6]})
+                exp_n = [x for x in notes if self.named[x[0]]]
+                if obs_n != exp_n and obs_w == notes: self.v('C06', 'status|head-callback-differs-from-notification', op, {'expected': exp_n[:6], 'observed': obs_n[:6]})
+                if executed: self.nontrivial['C06'].add((prev_op.sub, tuple(t[3] for r, t in executed)))
+                if notes: self.nontrivial['C06'].add((prev_op.sub, tuple(notes)))
+            else:
+                exp_t = [(t[1], pt.regions[r]) for r, t in executed]
+            for r, t in executed: self.stats['C06.tasks-executed'] += 1
+            self.stats['C06.plan-notifications'] += len(notes)
+        # resolve the executor's requests to the ids of the tasks they carry
+        out = []; ei = 0
+        for q in pre:
+            if q[0] == 'T':
+                if ei < len(executed) and executed[ei][1][1] == q[2]: out.append((q[1], q[2], executed[ei][1][3], q[3])); ei += 1
+                else: out.append((q[1], q[2], -1, q[3]))
+            else: out.append(q)
+        return out
+    def plan_after(self, op, st, kind, m, cbs, prev_op):
+        pt = st['plan']
+        def viol(prop, key, detail): self.v(prop, key, op, detail)
+        # marks die with the exit of their state (anonymous heads included)
+        for s in m.exited_all: pt.marks_s.discard(s); pt.marks_f.discard(s)
+        for me, s in cbs:
+            if me == EXIT: pt.marks_s.discard(s); pt.marks_f.discard(s)
+        if prev_op is not None and prev_op.act:
+            for s in range(self.n):
+                if prev_op.act[s] == '1' and op.act[s] != '1': pt.marks_s.discard(s); pt.marks_f.discard(s)
+        if kind in ('EXIT', 'LOAD'): pt.reset_all()
+        for t, a, ctx, phase in self.pl:
+            if phase == 1 and t in ('A', 'X', 'K'): self.stats['C07.' + pt.edit(t, a, viol)] += 1
+        if self.dumps and getattr(self, 'plan_unjudged', False): pt.restore(self.dumps)
+        elif self.dumps:
+            self.stats['C07.plan-comparisons'] += len(self.dumps)
+            pt.compare(self.dumps, self.cdumps, viol)
+            key = tuple((r, tuple(t[3] for t in pt.plans[r])) for r in sorted(pt.plans) if pt.plans[r])
+            if key: self.nontrivial['C07'].add(key)
+            tot = sum(n for n, _ in self.dumps.values())
+            if tot != pt.total(): self.v('C07', 'count|lengths-do-not-add-up-to-stored-tasks', op, {'iterated': tot, 'shadow': pt.total()})
+            pt.restore(self.dumps)
 
     # ------------------------------------------------------------------ C05
     def order(self, op, kind, m, cbs, before, prev_op):
@@ -418,6 +513,7 @@ class Checker:
         if kind in ('RESET', 'EXIT', 'QUERY'):
             if kind != 'QUERY' and obs: self.v('C09', 'history|not-empty-after-' + kind.lower(), op, obs)
             return
+        if kind in ('PLANEDIT', 'EXTSTATUS'): return
         if obs != exp:
             self.v('C09', 'history|previousTransitions-differs' + ('|remain-only-round' if 'remain-only-round' in m.notes else ''), op, {'expected': exp, 'observed': obs})
         else:
